@@ -426,6 +426,21 @@ theorem cex_notification_lost_at_shutdown :
     quiescent st = true ∧ proj 0 st.dest = [addProv prov0 evB] := by
   decide
 
+/-- **F79**: a clean stop while the pipe is behind. The second batch is stored and notified, the worker is cancelled by
+the shutdown before it copies it, `workerDone`, the stop completes; after the restart the state is quiescent and running, the
+descriptor stands at `Pos = 1` behind two stored events, nobody is charged (`newPPipe` starts no worker) — the pipe
+partition lacks the event until some later write to that source arrives (which then makes a worker copy everything). -/
+theorem cex_restart_strands_data :
+    let st := run cfgNow (init 1 (fun _ => true) (fun _ => prov0) (fun _ => true) false)
+      [.create, .write 0 [evA], .enqueue 0, .notify, .wopen 0, .wcopy 0 9, .wsave 0, .write 0 [evB], .enqueue 0, .notify,
+       .shutdown, .wtimeout 0, .wdone 0, .halt, .restart]
+    let st' := run cfgNow st ([.write 0 [evA], .enqueue 0, .notify] ++ copyCycle)
+    (quiescent st = true ∧ st.closed = false ∧ st.down = false ∧ st.pipe = .live ∧
+      (st.srcs 0).desc.map (fun d => (d.pos, d.charged)) = some (1, false) ∧ (st.srcs 0).log.length = 2 ∧
+      proj 0 st.dest = [addProv prov0 evA] ∧ specProj st 0 = [addProv prov0 evA, addProv prov0 evB]) ∧
+    (proj 0 st'.dest = specProj st' 0 ∧ (proj 0 st'.dest).length = 3) := by
+  decide
+
 theorem c10_full_false : ¬ C10_full := by
   intro h
   have h1 := h 1 (fun _ => true) (fun _ => prov0) (fun _ => true) false
